@@ -16,14 +16,17 @@ Fixpoint wf (l : list blk) : Prop :=
               match bparent x with None => r = [] | Some p => find_blk p r <> None end
   end.
 
-(* FAILED_CHILD is carried exactly below a failed parent *)
+(* every child of a failed block carries FAILED_CHILD (the converse is not an invariant of the code: removeSubtree
+   drops FAILED_POP of the removed blocks and keeps FAILED_CHILD of their descendants) *)
 Fixpoint fl_ok (l : list blk) : Prop :=
   match l with
   | [] => True
   | x :: r => fl_ok r /\
               match bparent x with
-              | None => fchild (bst x) = false
-              | Some p => match find_blk p r with Some y => fchild (bst x) = failed (bst y) | None => False end
+              | None => True
+              | Some p => match find_blk p r with
+                          | Some y => failed (bst y) = true -> fchild (bst x) = true
+                          | None => False end
               end
   end.
 
@@ -173,7 +176,7 @@ Definition lv_ok (l : list blk) : Prop := Forall (fun x => lvP (bst x)) l.
 
 (* failure flags agree pointwise (and the level property is carried over) *)
 Definition fl_eq (l l' : list blk) : Prop :=
-  Forall2 (fun x y => skel x = skel y /\ fblock (bst x) = fblock (bst y) /\ fpop (bst x) = fpop (bst y)
+  Forall2 (fun x y => skel x = skel y /\ (failed (bst y) = true -> failed (bst x) = true)
                       /\ fchild (bst x) = fchild (bst y) /\ (lvP (bst x) -> lvP (bst y))) l l'.
 
 Lemma fl_eq_skel l l' : fl_eq l l' -> same_skel l l'.
@@ -182,13 +185,13 @@ Proof.
 Qed.
 
 Lemma fl_eq_find l l' : fl_eq l l' -> forall p y, find_blk p l = Some y ->
-  exists y', find_blk p l' = Some y' /\ failed (bst y') = failed (bst y) /\ skel y = skel y'.
+  exists y', find_blk p l' = Some y' /\ (failed (bst y') = true -> failed (bst y) = true) /\ skel y = skel y'.
 Proof.
   induction 1 as [|x x' r r' Hx Hr IH]; intros p y F; simpl in *; [discriminate|].
-  destruct Hx as (Hs & Hb & Hp & Hc & Hl).
+  destruct Hx as (Hs & Hf & Hc & Hl).
   assert (E : bid x = bid x') by (unfold skel in Hs; congruence). rewrite <- E.
   destruct (N.eqb_spec (bid x) p).
-  - inversion F; subst y. exists x'. split; auto. split; auto. unfold failed. congruence.
+  - inversion F; subst y. exists x'. split; auto.
   - apply IH; auto.
 Qed.
 
@@ -196,11 +199,11 @@ Lemma fl_eq_ok l l' : fl_eq l l' -> fl_ok l -> fl_ok l'.
 Proof.
   induction 1 as [|x x' r r' Hx Hr IH]; simpl; auto.
   intros (Fr & Fx). split; auto.
-  destruct Hx as (Hs & Hb & Hp & Hc & Hl).
+  destruct Hx as (Hs & Hf & Hc & Hl).
   assert (P : bparent x = bparent x') by (unfold skel in Hs; congruence). rewrite <- P.
-  destruct (bparent x) as [p|]; [|congruence].
+  destruct (bparent x) as [p|]; [|auto].
   destruct (find_blk p r) as [y|] eqn:E; [|contradiction].
-  destruct (fl_eq_find _ _ Hr p y E) as (y' & E' & Hf & _). rewrite E'. congruence.
+  destruct (fl_eq_find _ _ Hr p y E) as (y' & E' & Hf' & _). rewrite E'. intros Fy. rewrite <- Hc. auto.
 Qed.
 
 Lemma fl_eq_refl l : fl_eq l l.
@@ -209,25 +212,25 @@ Proof. induction l; constructor; auto. Qed.
 Lemma fl_eq_lv l l' : fl_eq l l' -> lv_ok l -> lv_ok l'.
 Proof.
   unfold lv_ok. induction 1 as [|x y r r' Hxy Hr IH]; intros L; constructor; inversion L; subst.
-  - destruct Hxy as (_&_&_&_&H). auto.
+  - destruct Hxy as (_&_&_&H). auto.
   - auto.
 Qed.
 Lemma fl_eq_trans a b c : fl_eq a b -> fl_eq b c -> fl_eq a c.
 Proof.
   intros H; revert c. induction H as [|x y l l' Hxy Hl IH]; intros c H2; inversion H2 as [|y' z l2 l3 Hyz Hl2]; subst; constructor.
-  - destruct Hxy as (?&?&?&?&?), Hyz as (?&?&?&?&?). repeat split; try congruence. auto.
+  - destruct Hxy as (?&?&?&?), Hyz as (?&?&?&?). repeat split; try congruence; auto.
   - apply IH. exact Hl2.
 Qed.
 
 (* an update that does not touch the failure flags *)
 Definition keeps_fl (f : status -> status) : Prop :=
-  forall s, fblock (f s) = fblock s /\ fpop (f s) = fpop s /\ fchild (f s) = fchild s /\ (lvP s -> lvP (f s)).
+  forall s, (failed (f s) = true -> failed s = true) /\ fchild (f s) = fchild s /\ (lvP s -> lvP (f s)).
 
 Lemma upd_fl_eq id f l : keeps_fl f -> fl_eq l (upd id f l).
 Proof.
   intros K. induction l as [|x r IH]; simpl; constructor; auto.
   destruct (bid x =? id)%N; simpl; auto.
-  destruct (K (bst x)) as (?&?&?&?). repeat split; auto.
+  destruct (K (bst x)) as (?&?&?). repeat split; auto.
 Qed.
 
 Lemma keeps_set_level v : (1 <= v)%N -> keeps_fl (set_level v).
@@ -235,7 +238,11 @@ Proof. intros V s; repeat split; auto. intros _ _; exact V. Qed.
 Lemma keeps_set_active v : keeps_fl (set_active v). Proof. intros s; repeat split; auto. Qed.
 Lemma keeps_set_haspl v : keeps_fl (set_haspl v). Proof. intros s; repeat split; auto. Qed.
 Lemma keeps_st_delete : keeps_fl st_delete.
-Proof. intros s; repeat split; auto. intros _ H; discriminate. Qed.
+Proof.
+  intros s; repeat split; auto.
+  - unfold failed; simpl. destruct (fblock s), (fpop s), (fchild s); auto.
+  - intros _ H; discriminate.
+Qed.
 
 (* heights depend on the skeleton only *)
 Lemma same_skel_ht l : forall l', same_skel l l' -> ht_ok l -> ht_ok l'.
